@@ -50,6 +50,102 @@ class NodeId:
         self.digits = digits
 
 
+class Match:
+    """Result of re.match(pattern, s): ``ok`` is the z3 Bool 'matched'."""
+
+    def __init__(self, ok):
+        self.ok = ok
+
+
+def regex_to_z3(pattern):
+    """Python regular expression (subset: literals, classes with ranges,
+    negation and \\s \\d \\w, repetition, groups without captures used,
+    alternation) to a z3 regular expression over BMP characters."""
+    try:
+        import re._parser as sre_parse
+        import re._constants as C
+    except ImportError:                      # Python < 3.11
+        import sre_parse
+        import sre_constants as C
+    top = chr(0xFFFF)
+    anyc = z3.Range(chr(0), top)
+
+    def cat(name):
+        if name == C.CATEGORY_SPACE:
+            return [(9, 13), (32, 32), (28, 31), (0x85, 0x85), (0xa0, 0xa0)]
+        if name == C.CATEGORY_DIGIT:
+            return [(48, 57)]
+        if name == C.CATEGORY_WORD:
+            return [(48, 57), (65, 90), (95, 95), (97, 122)]
+        raise Unsupported(f'category {name}')
+
+    def ranges_to_re(rs):
+        parts = [z3.Range(chr(a), chr(b)) if a != b else z3.Re(chr(a))
+                 for a, b in rs]
+        if not parts:
+            return z3.Empty(z3.ReSort(z3.StringSort()))
+        return parts[0] if len(parts) == 1 else z3.Union(*parts)
+
+    def negate(rs):
+        rs = sorted(rs)
+        out = []
+        cur = 0
+        for a, b in rs:
+            if a > cur:
+                out.append((cur, a - 1))
+            cur = max(cur, b + 1)
+        if cur <= 0xFFFF:
+            out.append((cur, 0xFFFF))
+        return out
+
+    def seq(items):
+        parts = [one(op, av) for op, av in items]
+        if not parts:
+            return z3.Re('')
+        return parts[0] if len(parts) == 1 else z3.Concat(*parts)
+
+    def one(op, av):
+        if op == C.LITERAL:
+            return z3.Re(chr(av))
+        if op == C.NOT_LITERAL:
+            return ranges_to_re(negate([(av, av)]))
+        if op == C.ANY:
+            return ranges_to_re(negate([(10, 10)]))
+        if op == C.IN:
+            neg = False
+            rs = []
+            for o, a in av:
+                if o == C.NEGATE:
+                    neg = True
+                elif o == C.LITERAL:
+                    rs.append((a, a))
+                elif o == C.RANGE:
+                    rs.append((a[0], a[1]))
+                elif o == C.CATEGORY:
+                    rs.extend(cat(a))
+                else:
+                    raise Unsupported(f'class item {o}')
+            return ranges_to_re(negate(rs) if neg else rs)
+        if op in (C.MAX_REPEAT, C.MIN_REPEAT):
+            lo, hi, sub = av
+            r = seq(list(sub))
+            if hi == C.MAXREPEAT:
+                if lo == 0:
+                    return z3.Star(r)
+                if lo == 1:
+                    return z3.Plus(r)
+                return z3.Concat(*([r] * lo + [z3.Star(r)]))
+            return z3.Loop(r, lo, hi)
+        if op == C.SUBPATTERN:
+            return seq(list(av[3]))
+        if op == C.BRANCH:
+            alts = [seq(list(x)) for x in av[1]]
+            return z3.Union(*alts) if len(alts) > 1 else alts[0]
+        raise Unsupported(f'regex construct {op}')
+
+    return seq(list(sre_parse.parse(pattern))), anyc
+
+
 class Cmd:
     """The node handed to the mutator: children by index."""
 
@@ -87,7 +183,8 @@ def char_at(s, k):
 class Evaluator:
     def __init__(self, helpers_module):
         self.helpers = helpers_module
-        self.records = []          # (path condition, z3 string)
+        self.records = []          # declared names: (path condition, term)
+        self.replacements = []     # replacement leaves built from strings
         self.depth = 0
 
     # ------------------------------------------------------------ values
@@ -96,6 +193,8 @@ class Evaluator:
             return z3.BoolVal(v)
         if z3.is_expr(v) and z3.is_bool(v):
             return v
+        if isinstance(v, Match):
+            return v.ok
         if isinstance(v, Opaque) or v is None:
             return fresh_bool(tag)
         if isinstance(v, (Leaf, Cmd, NodeId)):
@@ -189,6 +288,10 @@ class Evaluator:
             op = e.ops[0]
             stringy = lambda v: isinstance(v, (Leaf, str)) or (  # noqa: E731
                 z3.is_expr(v) and v.sort() == z3.StringSort())
+            if isinstance(a, Match) and b is None and \
+                    isinstance(op, (ast.Is, ast.IsNot, ast.Eq, ast.NotEq)):
+                return z3.Not(a.ok) if isinstance(op, (ast.Is, ast.Eq)) \
+                    else a.ok
             if stringy(a) and stringy(b) and isinstance(op, (ast.Eq,
                                                              ast.NotEq)):
                 r = as_str(a) == as_str(b)
@@ -202,8 +305,10 @@ class Evaluator:
             if e.value is not None:
                 self.expr(e.value, env, pc)
             return None
+        if isinstance(e, ast.Dict):
+            return {'__dict__': [self.expr(v, env, pc) for v in e.values]}
         if isinstance(e, (ast.ListComp, ast.GeneratorExp, ast.Lambda,
-                          ast.IfExp, ast.Dict, ast.Set, ast.Starred)):
+                          ast.IfExp, ast.Set, ast.Starred)):
             return Opaque('compound')
         raise Unsupported(ast.dump(e)[:80])
 
@@ -241,6 +346,17 @@ class Evaluator:
                 if k < len(e.args):
                     parts.append(as_str(self.expr(e.args[k], env, pc)))
             return self._concat(parts)
+        if isinstance(f, ast.Attribute) and isinstance(f.value, ast.Name) \
+                and f.value.id == 're' and f.attr in ('match', 'fullmatch') \
+                and len(e.args) == 2:
+            pat = self.expr(e.args[0], env, pc)
+            subj = self.expr(e.args[1], env, pc)
+            if not isinstance(pat, str):
+                raise Unsupported('regular expression is not a constant')
+            rx, anyc = regex_to_z3(pat)
+            if f.attr == 'match':
+                rx = z3.Concat(rx, z3.Star(anyc))
+            return Match(z3.InRe(as_str(subj), rx))
         if isinstance(f, ast.Attribute):
             base = self.expr(f.value, env, pc)
             if f.attr == 'is_leaf':
@@ -277,7 +393,11 @@ class Evaluator:
                 return Opaque(name)
             if name == 'Simplification':
                 for a in e.args:
-                    self.expr(a, env, pc)
+                    v = self.expr(a, env, pc)
+                    if isinstance(v, dict):
+                        for r in v['__dict__']:
+                            if isinstance(r, Leaf):
+                                self.replacements.append((pc, r.s))
                 return Opaque(name)
             helper = getattr(self.helpers, name, None)
             args = [self.expr(a, env, pc) for a in e.args]
@@ -298,7 +418,8 @@ class Evaluator:
         fdef = ast.parse(src).body[0]
         body = [st for st in fdef.body
                 if not (isinstance(st, ast.Expr)
-                        and isinstance(st.value, ast.Constant))]
+                        and isinstance(st.value, ast.Constant))
+                and not isinstance(st, ast.Assert)]
         if len(body) != 1 or not isinstance(body[0], ast.Return):
             return None
         params = [a.arg for a in fdef.args.args]
@@ -379,7 +500,37 @@ def name_constructions(method, helpers_module, env):
     return ev.records
 
 
+def leaf_replacements(method, helpers_module, env, precondition=None):
+    """[(path condition, text term)] for every leaf a Simplification of the
+    method replaces something by; ``precondition`` = the filter method,
+    whose return value is conjoined to every path."""
+    ev = Evaluator(helpers_module)
+    pc = z3.BoolVal(True)
+    if precondition is not None:
+        src = textwrap.dedent(inspect.getsource(precondition))
+        fdef = ast.parse(src).body[0]
+        body = [st for st in fdef.body
+                if not (isinstance(st, ast.Expr)
+                        and isinstance(st.value, ast.Constant))]
+        if len(body) != 1 or not isinstance(body[0], ast.Return):
+            raise Unsupported('filter is not a single return')
+        pc = ev.truth(ev.expr(body[0].value, dict(env), pc))
+    src = textwrap.dedent(inspect.getsource(method))
+    fdef = ast.parse(src).body[0]
+    ev.block(fdef.body, dict(env), pc)
+    return ev.replacements
+
+
 # ------------------------------------------------------ token languages
+
+def model_string(model, term):
+    """Python string of a z3 string term under a model (z3 prints
+    non-printable characters as \\u{hex})."""
+    import re
+    txt = model.eval(term, True).as_string()
+    return re.sub(r'\\u\{([0-9a-fA-F]+)\}',
+                  lambda m: chr(int(m.group(1), 16)), txt)
+
 
 def _chars(s):
     return z3.Union(*[z3.Re(c) for c in s]) if len(s) > 1 else z3.Re(s)
@@ -405,7 +556,23 @@ def languages():
     notq = z3.Union(z3.Range(chr(0), chr(0x21)), z3.Range(chr(0x23), top))
     strbody = z3.Star(z3.Union(notq, z3.Re('""')))
     strlit = z3.Concat(z3.Re('"'), strbody, z3.Re('"'))
+    # one token without delimiters for the reader: any run of characters
+    # other than white space, parentheses, '"', '|' and ';'
+    def but(codes):
+        out = []
+        cur = 0
+        for c in sorted(codes):
+            if c > cur:
+                out.append(z3.Range(chr(cur), chr(c - 1)))
+            cur = c + 1
+        out.append(z3.Range(chr(cur), top))
+        return z3.Union(*out)
+    bare = z3.Plus(but([9, 10, 13, 32, 34, 40, 41, 59, 124]))
+    # what the writers and readers treat as one leaf: a bare token, or a
+    # leaf starting with ';' (written and read as a comment line)
+    comment = z3.Concat(z3.Re(';'), z3.Star(but([10, 13])))
     return {'symbol': symbol, 'digits': z3.Plus(digit), 'simple': simple,
+            'bare': bare, 'leaf': z3.Union(bare, comment),
             'quoted': quoted, 'strlit': strlit, 'quoted_body': z3.Star(notbar),
             'strlit_body': strbody}
 
